@@ -28,6 +28,7 @@ import (
 	"github.com/hashicorp/go-hclog"
 	"github.com/hashicorp/go-plugin/internal/cmdrunner"
 	"github.com/hashicorp/go-plugin/internal/grpcmux"
+	"github.com/hashicorp/go-plugin/internal/verifhook"
 	"github.com/hashicorp/go-plugin/runner"
 	"google.golang.org/grpc"
 )
@@ -516,6 +517,7 @@ func (c *Client) Kill() {
 	addr := c.address
 	hostSocketDir := c.unixSocketCfg.socketDir
 	c.l.Unlock()
+	verifhook.Point("client.kill.read", c, verifhook.B(runner != nil), verifhook.B(addr != nil))
 
 	// If there is no runner or ID, there is nothing to kill.
 	if runner == nil || runner.ID() == "" {
@@ -535,6 +537,7 @@ func (c *Client) Kill() {
 		c.l.Lock()
 		c.runner = nil
 		c.l.Unlock()
+		verifhook.Point("client.kill.end", c, 0, 0)
 	}()
 
 	// We need to check for address here. It is possible that the plugin
@@ -547,6 +550,7 @@ func (c *Client) Kill() {
 		client, err := c.Client()
 		if err == nil {
 			err = client.Close()
+			verifhook.Point("client.kill.closed", c, verifhook.B(err == nil), 0)
 
 			// If there is no error, then we attempt to wait for a graceful
 			// exit. If there was an error, we assume that graceful cleanup
@@ -568,14 +572,17 @@ func (c *Client) Kill() {
 	if graceful {
 		select {
 		case <-c.doneCtx.Done():
+			verifhook.Point("client.kill.graceful", c, 0, 0)
 			c.logger.Debug("plugin exited")
 			return
 		case <-time.After(2 * time.Second):
+			verifhook.Point("client.kill.graceexpired", c, 0, 0)
 		}
 	}
 
 	// If graceful exiting failed, just kill it
 	c.logger.Warn("plugin failed to exit gracefully")
+	verifhook.Point("client.kill.force", c, 0, 0)
 	if err := runner.Kill(context.Background()); err != nil {
 		c.logger.Debug("error killing plugin", "error", err)
 	}
@@ -762,6 +769,7 @@ func (c *Client) Start() (addr net.Addr, err error) {
 	}
 
 	c.runner = runner
+	verifhook.Point("client.start.runner", c, 0, 0)
 	defer func() {
 		if err != nil {
 			c.startErr = err
@@ -779,6 +787,7 @@ func (c *Client) Start() (addr net.Addr, err error) {
 		rErr := recover()
 
 		if err != nil || rErr != nil {
+			verifhook.Point("client.start.cleanupkill", c, verifhook.B(rErr != nil), 0)
 			runner.Kill(context.Background())
 		}
 
@@ -809,6 +818,7 @@ func (c *Client) Start() (addr net.Addr, err error) {
 
 		// Wait for the command to end.
 		err := runner.Wait(context.Background())
+		verifhook.Point("client.wait.returned", c, 0, 0)
 		if err != nil {
 			c.logger.Error("plugin process exited", "plugin", runner.Name(), "id", runner.ID(), "error", err.Error())
 		} else {
@@ -822,6 +832,7 @@ func (c *Client) Start() (addr net.Addr, err error) {
 		c.l.Lock()
 		defer c.l.Unlock()
 		c.exited = true
+		verifhook.Point("client.wait.exited", c, 0, 0)
 	}()
 
 	// Start a goroutine that is going to be reading the lines
@@ -984,6 +995,7 @@ func (c *Client) Start() (addr net.Addr, err error) {
 	}
 
 	c.address = addr
+	verifhook.Point("client.start.ok", c, 0, 0)
 	return
 }
 
